@@ -350,7 +350,7 @@ def cauchy_dot_product(
     first, second = series
     if first.n_infinite != second.n_infinite:
         raise ValueError("Factors must have equal number of infinite dimensions.")
-    if first.dimension_names != second.dimension_names:
+    if tuple(first.dimension_names) != tuple(second.dimension_names):
         raise ValueError("All series must have the same dimension names.")
 
     if first.shape[1] != second.shape[0]:
